@@ -1,4 +1,5 @@
 import re
+import math
 import decimal
 from kvfile import KVFile
 from bitstring import BitArray
@@ -36,7 +37,11 @@ class KeyCalc(object):
                         if value == 0:
                             # -0.0 and 0.0 are the same number and must get the same key
                             value = 0.0
-                        bits = BitArray(float=value, length=64)
+                        try:
+                            bits = BitArray(float=value, length=64)
+                        except OverflowError:
+                            # an integer beyond the range of a double: it sorts with the infinities
+                            bits = BitArray(float=math.inf if value > 0 else -math.inf, length=64)
                         # invert the sign bit
                         bits.invert(0)
                         # invert negative numbers
